@@ -214,7 +214,18 @@ func build(c *lib.Ctx) []*sched.Scenario {
 	for _, s := range scenarios(c) {
 		s := s
 		out = append(out, &sched.Scenario{Name: s.name, MaxBound: s.bound, TimerBudget: s.timerBud, MaxSteps: 20000,
-			StartMs: 1_705_312_800_000, // a whole second
+			NoStmtYield: true,
+			StartMs:     1_705_312_800_000, // a whole second
+			New:         func() sched.Execution { return &exec{sc: s} }})
+	}
+	// statement granularity: a scheduling point before every statement of
+	// db19/timestamp.go and of Thread.Timestamp / tsExpire, not only at their lock
+	// operations - a missing or too short critical section is then an explorable
+	// interleaving as well (smaller bound)
+	for _, s := range scenarios(c) {
+		s := s
+		out = append(out, &sched.Scenario{Name: s.name + "/stmt", MaxBound: lib.Pick(c, 1, 2), TimerBudget: s.timerBud, MaxSteps: 60000,
+			StartMs: 1_705_312_800_000,
 			New:     func() sched.Execution { return &exec{sc: s} }})
 	}
 	return out
